@@ -15,21 +15,51 @@ PMS = {"rw": "ReadWrite", "ro": "ReadOnly", "na": "NoAccess"}
 LMS = {"locked": "Locked", "unlocked": "Unlocked"}
 CONTS = {"bytes": "HeapBytes", "array": "HeapByteArray<4>"}
 OPS = ["readView", "mutView", "arrayView", "index", "resize", "clone", "lock", "unlock", "ro", "rw", "na", "useAfter"]
-SNIPPET = {
-    "readView": "let s: &[u8] = x.as_slice(); std::hint::black_box(s[0]);",
-    "mutView": "x.as_mut_slice()[0] = 9;",
-    "arrayView": "let a: &[u8; 4] = x.as_array(); std::hint::black_box(a[0]);",
-    "index": "std::hint::black_box(x[0]);",
-    "resize": "x.resize(8, 0); std::hint::black_box(x.len());",
-    "clone": "let y = x.clone(); drop(y);",
-    "lock": "let r = x.mlock(); drop(r);",
-    "unlock": "let y = x.munlock().unwrap(); drop(y);",
-    "ro": "let y = x.mprotect_readonly().unwrap(); drop(y);",
-    "rw": "let y = x.mprotect_readwrite().unwrap(); drop(y);",
-    "na": "let y = x.mprotect_noaccess().unwrap(); drop(y);",
-    "useAfter": "let y = x.mprotect_readonly(); let z = x.munlock(); drop(y); drop(z);",
+# every operation of the table has one primary spelling and further spellings of the same access through other
+# traits (AsRef/AsMut/Deref/DerefMut/Index/MutBytes/…): in a forbidden cell EVERY spelling must be rejected by the
+# compiler; in a permitted cell the primary one must compile and run, the others must not fault if they compile.
+# (name, containers it applies to, snippet)
+VARIANTS = {
+    "readView": [("as_slice", "ba", "let s: &[u8] = x.as_slice(); std::hint::black_box(s[0]);"),
+                 ("as_ref", "ba", "let s: &[u8] = AsRef::<[u8]>::as_ref(&x); std::hint::black_box(s[0]);"),
+                 ("deref", "ba", "let s: &[u8] = &*x; std::hint::black_box(s[0]);"),
+                 ("len", "ba", "std::hint::black_box(x.len());"),
+                 ("to_vec", "ba", "std::hint::black_box(x.to_vec());"),
+                 ("iter", "ba", "std::hint::black_box(x.iter().next().copied());")],
+    "mutView": [("as_mut_slice", "ba", "x.as_mut_slice()[0] = 9;"),
+                ("as_mut", "ba", "AsMut::<[u8]>::as_mut(&mut x)[0] = 9;"),
+                ("deref_mut", "ba", "(&mut *x)[0] = 9;"),
+                ("index_mut", "ba", "x[0] = 9;"),
+                ("copy_from_slice", "ba", "x.copy_from_slice(&[5u8, 6, 7, 8]);"),
+                ("fill", "ba", "x.fill(7);"),
+                ("as_mut_array", "a", "x.as_mut_array()[0] = 9;"),
+                ("as_mut_arr_trait", "a", "AsMut::<[u8; 4]>::as_mut(&mut x)[0] = 9;")],
+    "arrayView": [("as_array", "a", "let a: &[u8; 4] = x.as_array(); std::hint::black_box(a[0]);"),
+                  ("as_ref_arr", "a", "let a: &[u8; 4] = AsRef::<[u8; 4]>::as_ref(&x); std::hint::black_box(a[0]);"),
+                  ("as_array_bytes", "b", "let a: &[u8; 4] = ByteArray::<4>::as_array(&x); std::hint::black_box(a[0]);")],
+    "index": [("index", "ba", "std::hint::black_box(x[0]);"),
+              ("range", "ba", "std::hint::black_box(x[0..2].len());"),
+              ("get", "ba", "std::hint::black_box(x.get(0).copied());")],
+    "resize": [("resize", "ba", "x.resize(8, 0); std::hint::black_box(x.len());"),
+               ("resize_trait", "ba", "ResizableBytes::resize(&mut x, 2, 0);")],
+    "clone": [("clone", "ba", "let y = x.clone(); drop(y);"),
+              ("clone_trait", "ba", "let y = Clone::clone(&x); drop(y);")],
+    "lock": [("mlock", "ba", "let r = x.mlock(); drop(r);")],
+    "unlock": [("munlock", "ba", "let y = x.munlock().unwrap(); drop(y);")],
+    "ro": [("mprotect_readonly", "ba", "let y = x.mprotect_readonly().unwrap(); drop(y);")],
+    "rw": [("mprotect_readwrite", "ba", "let y = x.mprotect_readwrite().unwrap(); drop(y);")],
+    "na": [("mprotect_noaccess", "ba", "let y = x.mprotect_noaccess().unwrap(); drop(y);")],
+    "useAfter": [("moved", "ba", "let y = x.mprotect_readonly(); let z = x.munlock(); drop(y); drop(z);"),
+                 ("moved_lock", "ba", "let y = x.munlock(); std::hint::black_box(&x); drop(y);")],
 }
-ACCEPTED_ERRORS = {"E0599", "E0277", "E0382", "E0308", "E0608", "E0596"}
+STREAM_VARIANTS = {
+    "push": [("push_to_vec", "let c: Vec<u8> = s.push_to_vec(&msg, None, Tag::MESSAGE).unwrap(); std::hint::black_box(c);"),
+             ("push", "let c: Vec<u8> = s.push(&msg, None, Tag::MESSAGE).unwrap(); std::hint::black_box(c);")],
+    "pull": [("pull_to_vec", "let r = s.pull_to_vec(&ct, None); std::hint::black_box(r.is_ok());"),
+             ("pull", "let r: Result<(Vec<u8>, Tag), _> = s.pull(&ct, None); std::hint::black_box(r.is_ok());")],
+    "rekey": [("rekey", "s.rekey();")],
+}
+ACCEPTED_ERRORS = {"E0599", "E0277", "E0382", "E0308", "E0608", "E0596", "E0594", "E0614"}
 
 
 def mk_expr(cont, pm, lm):
@@ -46,7 +76,7 @@ def mk_expr(cont, pm, lm):
     return base
 
 
-def program(cont, pm, lm, op):
+def program(cont, pm, lm, snippet):
     return """#![allow(unused)]
 use dryoc::protected::*;
 use dryoc::types::*;
@@ -56,13 +86,10 @@ fn main() {
     let mut x: T = mk();
     %s
 }
-""" % (CONTS[cont], PMS[pm], LMS[lm], mk_expr(cont, pm, lm), SNIPPET[op])
+""" % (CONTS[cont], PMS[pm], LMS[lm], mk_expr(cont, pm, lm), snippet)
 
 
-def stream_program(mode, op):
-    call = {"push": "let c: Vec<u8> = s.push_to_vec(&msg, None, Tag::MESSAGE).unwrap(); std::hint::black_box(c);",
-            "pull": "let r = s.pull_to_vec(&ct, None); std::hint::black_box(r.is_ok());",
-            "rekey": "s.rekey();"}[op]
+def stream_program(mode, call):
     return """#![allow(unused)]
 use dryoc::dryocstream::*;
 fn main() {
@@ -127,34 +154,42 @@ def run(tier, seed):
     for m, o in scells:
         lines.append("%d typestate_stream %s %s" % (len(lines), m, o))
     model = run_engine(driver_path(), lines, nproc=1) if lean["build_ok"] else {}
-    jobs = []
+    jobs = []      # (name, source, rlib, deps, outdir, run?)  + parallel list of (cell index, variant name, primary?)
+    info = []
     for i, (cont, pm, lm, op) in enumerate(cells):
         want = model.get(str(i), ["?"])[0]
-        runnable = want == "permit" and not (pm == "na" and lm == "locked")
-        jobs.append(("c_%s_%s_%s_%s" % (cont, pm, lm, op), program(cont, pm, lm, op), rlib, deps, outdir, runnable))
+        for vi, (vname, applies, snippet) in enumerate(VARIANTS[op]):
+            if ("b" if cont == "bytes" else "a") not in applies:
+                continue
+            primary = vi == 0 or not any(("b" if cont == "bytes" else "a") in a for _, a, _ in VARIANTS[op][:vi])
+            runnable = want == "permit" and not (pm == "na" and lm == "locked")
+            jobs.append(("c_%s_%s_%s_%s_%s" % (cont, pm, lm, op, vname), program(cont, pm, lm, snippet), rlib, deps, outdir, runnable))
+            info.append((i, vname, primary, want))
     for j, (m, o) in enumerate(scells):
         want = model.get(str(len(cells) + j), ["?"])[0]
-        jobs.append(("s_%s_%s" % (m, o), stream_program(m, o), rlib, deps, outdir, want == "permit"))
+        for vi, (vname, call) in enumerate(STREAM_VARIANTS[o]):
+            jobs.append(("s_%s_%s_%s" % (m, o, vname), stream_program(m, call), rlib, deps, outdir, want == "permit"))
+            info.append((len(cells) + j, vname, vi == 0, want))
     with ThreadPoolExecutor(max_workers=NPROC) as ex:
         outs = list(ex.map(compile_one, jobs))
-    for k, (name, compiled, codes, ran) in enumerate(outs):
-        want = model.get(str(k), ["?"])[0]
+    cell_primary_ok = {}
+    for (name, compiled, codes, ran), (ci, vname, primary, want), job in zip(outs, info, jobs):
         res.evaluations += 1
-        res.count("want=" + want)
+        res.count("want=%s/%s" % (want, "primary" if primary else "other-spelling"))
         res.distinct.add(name + str(compiled))
-        line = lines[k].split(" ", 1)[1]
-        answers = {"model": want, "compiled": compiled, "error_codes": codes[:4], "exit": ran, "program": os.path.join(outdir, name + ".rs")}
-        if len(res.samples) < 8 and k % 19 == 0:
+        line = lines[ci].split(" ", 1)[1] + " [" + vname + "]"
+        answers = {"model": want, "compiled": compiled, "error_codes": codes[:4], "exit": ran, "program": job[1]}
+        if len(res.samples) < 8 and res.evaluations % 37 == 0:
             res.samples.append({"cell": line, "expected": want, "compiled": compiled, "error_codes": codes[:3], "exit": ran})
         if want == "reject" and compiled:
-            res.violations.append({"kind": "predicate", "line": line, "answers": answers, "why": "a program the type-state table forbids compiles: " + jobs[k][1].replace("\n", " ")[-160:]})
-        elif want == "permit" and not compiled:
-            # the API lost something it offered: not a safety violation, but the table (model) no longer matches the code
-            res.corr_breaks.append({"line": line, "answers": answers})
+            res.violations.append({"kind": "predicate", "line": line, "answers": answers, "why": "a program the type-state table forbids compiles (spelling %s)" % vname})
         elif want == "reject" and not (set(codes) & ACCEPTED_ERRORS):
             res.corr_breaks.append({"line": line, "answers": answers})
-        elif want == "permit" and ran is not None and ran != 0:
+        elif want == "permit" and compiled and ran is not None and ran != 0:
             res.violations.append({"kind": "predicate", "line": line, "answers": answers, "why": "a permitted program faulted at run time (exit %s)" % ran})
+        elif want == "permit" and primary and not compiled:
+            # the API lost something it offered: not a safety violation, but the table (model) no longer matches the code
+            res.corr_breaks.append({"line": line, "answers": answers})
         elif want not in ("permit", "reject"):
             res.corr_breaks.append({"line": line, "answers": answers})
     res.extra["exhaustive"] = True
